@@ -115,7 +115,7 @@ def batch_runs(ctx, kinds=("span", "log"), focus=None):
     fixed scenarios.  scenario = Q,B,np,nr,nf,ns,lat,fto,post,freeze,expfail,destroy"""
     thorough = ctx.tier == "thorough"
     s = ctx.seed
-    n = 20000 if thorough else 2500
+    n = 8000 if thorough else 2500
     runs = []
     for k in kinds:
         for i in range(4 if thorough else 2):
@@ -129,8 +129,9 @@ def batch_runs(ctx, kinds=("span", "log"), focus=None):
             fixed += ["1,1,1,1,2,1,0,0,1,0,1,0", "2,1,1,1,1,2,1,2,1,0,0,0", "2,1,1,2,1,1,1,0,1,0,2,0", "2,2,1,1,1,1,0,2,0,0,2,1"]
         if focus == "C03":
             fixed += ["3,2,2,2,1,1,1,0,0,0,0,0", "3,2,3,1,0,1,0,0,0,0,0,0"]
-        for sc in fixed:
-            runs.append(["explore", k, "dfs", 10 ** 7, s, sc, 2 if thorough else 1])
+        for i, sc in enumerate(fixed):
+            # delay bound 2 multiplies the number of executions by ~100: thorough tier, first scenarios only
+            runs.append(["explore", k, "dfs", 10 ** 7, s, sc, 2 if (thorough and i < 3) else 1])
         # scenario families with a fixed shape under random scheduling (deeper in one corner)
         for sc in fixed[:3] + ([fixed[-2], fixed[-1]] if focus == "C02" else []):
             runs.append(["explore", k, "random", n // 2, s + 77, sc])
